@@ -216,6 +216,8 @@ class VC:
     def _run_stmts(self, fi, stmts, locals_):
         from .interp import Frame, ReturnEx, ContinueEx, BreakEx
         fr = Frame(fi, locals_, module=fi.module, cls_ctx=fi.cls)
+        fr.yields = []                      # values yielded by these statements of a generator function (read by the harness)
+        self.last_yields = fr.yields
         self.I.frames.append(fr)
         try:
             try:
